@@ -48,6 +48,8 @@ def cases(draw):
         "log10_spread": draw(st.sampled_from([None, -3, -1, 0, 1, 2, 3, 4, 5, 6])),
         "u": draw(st.lists(st.integers(-1000, 1000), min_size=n, max_size=n)),
         "sign": draw(st.sampled_from([1, -1])),
+        "levels": draw(st.sampled_from([None, None, None, 2, 3])),
+        "int_dtype": draw(st.integers(0, 7)) == 0,
         "shift": draw(st.sampled_from([0.0, 1.0, -37.5, 1e3, -1e6, 1e6])),
     }
 
@@ -61,8 +63,13 @@ def build(case):
     u = np.asarray(case["u"], dtype=float).reshape(shape) / 1000.0
     mag = 10.0 ** case["log10_mag"]
     spread = 0.0 if case["log10_spread"] is None else 10.0 ** case["log10_spread"]
+    if case.get("levels"):
+        # only a few distinct values: exact ties, also at the maximum of a slice / segment
+        u = (np.asarray(case["u"]).reshape(shape) % case["levels"]) / case["levels"]
     v = case["sign"] * mag + spread * u
     v = np.clip(v, -1e6, 1e6)
+    if case.get("int_dtype"):
+        v = np.round(v).astype(np.int64)
     return v, 10.0 ** case["log10_scale"]
 
 
@@ -135,7 +142,9 @@ def check(case):
                     msgs.append(f"{desc}: axis layout and segment layout of the same data disagree")
     spread = float(v.max() - v.min())
     out = Outcome(digest=case_digest(case), nontrivial=bool(spread / s > 50 and (nn >= 3).all()),
-                  classes=["segments" if sizes else "no_segments", "axes" if axes else "no_axes"])
+                  classes=["segments" if sizes else "no_segments", "axes" if axes else "no_axes"]
+                  + (["tied_values"] if case.get("levels") or case["log10_spread"] is None else [])
+                  + (["integer_values"] if case.get("int_dtype") else []))
     if msgs:
         out.status = "violation"
         out.reason = "; ".join(msgs[:2])
